@@ -17,7 +17,7 @@ PROPS = {
         "suites": ["c19"],
         "level": "proof",
         "proof_module": "GeoProofs.Props.C19",
-        "theorems": [],
+        "theorems": ["Geo.onSeg_iff_param", "Geo.raycast_on_iff", "Geo.raycast_in_iff", "Geo.raycast_on_not_in", "Geo.raycast_symm", "Geo.segIntersects_iff", "Geo.segIntersects_symm", "Geo.segContainsSeg_iff", "Geo.segContainsSeg_iff_subset", "Geo.collinearPt_iff", "Geo.segBox_tight", "Geo.spec_onSeg_iff", "Geo.spec_crosses_iff", "Geo.spec_segsMeet_iff"],
         "trivial_sigs": RAY_TRIVIAL | SI_TRIVIAL,
         "rule": "exhaustive (segment,point) triples on the 5x5 lattice and segment pairs on the 4x4 lattice (6x6/5x5 thorough) "
                 "plus random and adversarial cases over the regime E; a case is distinct by its op text and non-trivial when "
@@ -28,7 +28,7 @@ PROPS = {
         "suites": ["c18"],
         "level": "proof",
         "proof_module": "GeoProofs.Props.C18",
-        "theorems": [],
+        "theorems": ["Geo.convex_iff", "Geo.clockwise_iff", "Geo.rect_tight", "Geo.bboxSpec_tight", "Geo.clockwiseSpec_iff_area", "Geo.numSegments_spec", "Geo.segmentAt_spec", "Geo.convexSpec_rotate", "Geo.clockwiseSpec_rotate", "Geo.convexSpec_closing", "Geo.clockwiseSpec_closing", "Geo.processPoints_rotate_convex", "Geo.processPoints_rotate_clockwise", "Geo.processPoints_closing_convex", "Geo.processPoints_closing_clockwise"],
         "trivial_sigs": {"at--"},
         "rule": "every vertex sequence of length 1..5 on the 3x3 lattice as a closed ring (and short ones as open series), plus random "
                 "sequences up to 300 points with duplicate and collinear vertices; non-trivial = a non-empty closed ring (convex/clockwise judged)",
@@ -38,7 +38,7 @@ PROPS = {
         "suites": ["c01"],
         "level": "proof",
         "proof_module": "GeoProofs.Props.C01",
-        "theorems": [],
+        "theorems": ["Geo.containsPoint_fold_perm", "Geo.ringContainsPoint_hit_iff", "Geo.ringContainsPoint_hit_iff_none", "Geo.ringContainsPoint_hit_iff_quadtree", "Geo.ringContainsPoint_idx_on", "Geo.rectRing_containsPoint_iff", "Geo.polyContainsPoint_iff", "Geo.lineContainsPoint_iff", "Geo.rectContainsPoint_iff", "Geo.ringContainsPoint_index_indep"],
         "trivial_sigs": set(),
         "rule": "every ring of 3..4 vertices (5 thorough) on the 3x3 lattice against all 49 half-step query points, rotating through "
                 "index configurations; random lines, rects, arbitrary and valid polygons (with holes, >=64 vertices) under 8 index "
@@ -49,7 +49,7 @@ PROPS = {
         "suites": ["c04"],
         "level": "proof",
         "proof_module": "GeoProofs.Props.C04",
-        "theorems": [],
+        "theorems": ["Geo.qtree_search_exact", "Geo.rtree_search_exact", "Geo.rtree_search_exact_of_NE", "Geo.rBuild_items_counterexample", "Geo.readNum_appendNum", "Geo.qSearchTree_eq_foldUntil", "Geo.qVisit_perm_filter", "Geo.qInsert_inv", "Geo.qInsert_items", "Geo.qBuild_spec", "Geo.rSearchTree_eq_foldUntil", "Geo.rVisit_eq_filter", "Geo.splitEntries_perm", "Geo.rBuild_spec'", "Geo.series_search_exact_none", "Geo.series_search_exact_quadtree", "Geo.series_search_exact_rtree", "Geo.segBox_inside_rect"],
         "trivial_sigs": {"se0"},
         "rule": "series of sizes 0..1000 (..70000 thorough) in 7 layouts, open and closed, under no index / R-tree / quadtree: index bytes "
                 "compared with the model's, searches with strip, infinite, degenerate and empty queries at 4 stop positions; plus "
@@ -126,6 +126,22 @@ PROPS = {
         "trivial_sigs": set(),
         "rule": "objects of all kinds from constructors and from parsed documents on regime E: Empty/Valid/Rect/Center/NumPoints compared with the "
                 "model and judged against the direct min/max specification over the positions of the non-empty parts",
+    },
+    "C16": {
+        "suites": ["c16"],
+        "level": "proof", "proof_module": "GeoProofs.Props.C16",
+        "translators": [{"name": "effects", "out": "Effects.lean"}],
+        "theorems": ["Geo.Effects.cert_sound", "Geo.Effects.table_cert_ok", "Geo.Effects.table_roots_ok", "Geo.Effects.roots_write_nothing_shared",
+                     "Geo.Interleave.shared_unchanged", "Geo.Interleave.schedule_independent", "Geo.Interleave.permuted_schedules_agree",
+                     "Geo.Interleave.race_free", "Geo.Interleave.readonly_interleaving"],
+        "trivial_sigs": set(),
+        "rule": "effect table regenerated from the SSA of /repo (RTA call graph from every exported method of every exported type and every "
+                "exported geo function); certificate re-checked by the kernel; supporting search: 8 goroutines x 400 random method calls over a "
+                "shared pool of objects of all kinds (indexed and not) compared with solo answers, and the same under the race detector",
+        "technique": "Lean 4: kernel-checked certificate over an effect table translated from the code's SSA + generic interleaving theorem; race detector as failing-input search",
+        "trusted_extra": ["the effect extractor /verif/translate/effects.go (provenance rules, RTA call graph over-approximation)",
+                          "contracts of the external functions listed in GeoModel/Generated/Effects.lean (`externals`)",
+                          "the Go memory model: a data race needs a write to shared memory"],
     },
     "C17": {
         "suites": ["c17"],
@@ -349,3 +365,36 @@ def classify_xfail(pid, ops, i, impl, known):
             if not need or any(n in impl for n in need):
                 return kf["id"]
     return None
+
+
+def extra_checks(pid, tier, seed, log):
+    """additional searches run by bin/check; each returns a dict with name/violation/has_input"""
+    import os, subprocess
+    out = []
+    if pid == "C16":
+        verif = os.path.dirname(os.path.dirname(os.path.abspath(__file__)))
+        harn = os.path.join(verif, "harness")
+        env = dict(os.environ, GOFLAGS="-mod=mod", GOPROXY="off", GOSUMDB="off", GOTOOLCHAIN="local", CGO_ENABLED="1")
+        p = subprocess.run(["go", "build", "-race", "-tags", "verif", "-o", "bin/verifharness-race", "."], cwd=harn, env=env,
+                           stdout=subprocess.PIPE, stderr=subprocess.STDOUT, text=True)
+        log.append(("go build -race (harness)", p.returncode, p.stdout[-800:]))
+        if p.returncode != 0:
+            out.append({"name": "race-build", "violation": False, "note": "race-enabled harness could not be built: " + p.stdout[-300:]})
+            return out
+        n = 12 if tier == "quick" else 300
+        ops = "".join("xconc %d\n" % ((seed * 1000003 + 7919 * i) % (1 << 62)) for i in range(n))
+        env2 = dict(os.environ, GORACE="halt_on_error=1 exitcode=66")
+        q = subprocess.run([os.path.join(harn, "bin", "verifharness-race"), "worker"], input=ops, env=env2,
+                           stdout=subprocess.PIPE, stderr=subprocess.PIPE, text=True, timeout=3000)
+        raced = "DATA RACE" in q.stderr or q.returncode == 66
+        bad = [l for l in q.stdout.splitlines() if l != "ok"]
+        log.append(("race detector run (%d xconc ops)" % n, q.returncode, (q.stderr[-1500:] if raced else "no race reported")))
+        done = len(q.stdout.splitlines())
+        if raced:
+            out.append({"name": "data-race", "violation": True, "has_input": True, "ops": ops.splitlines()[max(0, done - 1):done + 1] or ops.splitlines()[:1],
+                        "what": "the race detector reports a data race between concurrent query calls", "race_report": q.stderr[-4000:]})
+        elif bad:
+            out.append({"name": "nondeterministic", "violation": True, "has_input": True, "ops": ops.splitlines()[:done], "what": bad[0]})
+        else:
+            out.append({"name": "race-detector", "violation": False, "xconc_ops": n, "note": "no race, all concurrent answers equal the solo answers"})
+    return out
